@@ -64,6 +64,10 @@ fn generate(seed: u64, tier: Tier, em: &mut Emitter) {
             }
         }
     }
+    // a slow first partition: later partitions finish their local phase first (run with 4 threads)
+    for (src, steps, parts) in slow_head_cases(tier != Tier::Quick) {
+        emit_prog(em, &src, &steps, Mode::Par(parts), true, &["sweep", "slow_first_partition"]);
+    }
     // group_by_key (plain, lifted-combine, distinct_per_key) on either side of a join
     for (src, steps, parts) in join_side_barrier_cases(&mut rng, tier != Tier::Quick) {
         let uses_gbk = |ss: &[Step]| ss.iter().any(|s| matches!(s, Step::GroupByKey | Step::DistinctPerKey));
